@@ -10,6 +10,7 @@ import Driver.Threads
 import Driver.Special
 import Driver.Simd
 import Driver.Matmul
+import Driver.ExprDrv
 /-! `adept_model <family>`: line protocol on stdin/stdout, one result line per input line.
     Every import of this file must stay free of Mathlib (the driver is linked natively). -/
 open Adept Adept.Drv
@@ -27,4 +28,5 @@ def main (args : List String) : IO UInt32 := do
   | ["special"] => runFamily SpecialDrv.step (); return 0
   | ["simd"] => runFamily SimdDrv.step (); return 0
   | ["matmul"] => runFamily MatmulDrv.step {}; return 0
+  | ["expr"] => runFamily ExprDrv.step {}; return 0
   | _ => IO.eprintln "usage: adept_model <family>"; return 2
